@@ -324,7 +324,8 @@ Definition tf_kron (p : nat) (a b : tfrac) : tfrac := mkF (zkron p (tf_m a) (tf_
 (* 1-qutrit state codes used below: 01x0 0, 01x1 1, 01y0 2, 01y1 3, 01z0 4 (|0>), 01z1 5 (|1>), 12x0 6, 12x1 7,
    12y0 8, 12y1 9, 02x0 12, 02x1 13, 02y0 14, 02y1 15, 02z1 17 (|2>) *)
 (* single POVM names: 0 x, 1 y, 2 z, 3 bell, then 1-qutrit catalogue order 4 01x3, 5 01y3, 6 z3, 7 z2, 8 02x3,
-   9 02y3, 10 12x3, 11 12y3 ; each outcome is a list of states whose projectors are summed *)
+   9 02y3, 10 12x3, 11 12y3, then the 2-qubit parity POVMs 12 xxparity ((I + XX)/2, (I - XX)/2), 13 zzparity
+   ((I + ZZ)/2, (I - ZZ)/2) ; each outcome is a list of states whose projectors are summed *)
 Definition povm_states (k : nat) : list (list sname) :=
   match k with
   | 0 => [[sq[0]]; [sq[1]]] | 1 => [[sq[2]]; [sq[3]]] | 2 => [[sq[4]]; [sq[5]]]
@@ -332,9 +333,10 @@ Definition povm_states (k : nat) : list (list sname) :=
   | 4 => [[st3[0]]; [st3[1]]; [st3[17]]] | 5 => [[st3[2]]; [st3[3]]; [st3[17]]]
   | 6 => [[st3[4]]; [st3[5]]; [st3[17]]] | 7 => [[st3[4]]; [st3[5]; st3[17]]]
   | 8 => [[st3[12]]; [st3[13]]; [st3[5]]] | 9 => [[st3[14]]; [st3[15]]; [st3[5]]]
-  | 10 => [[st3[6]]; [st3[7]]; [st3[4]]] | _ => [[st3[8]]; [st3[9]]; [st3[4]]]
+  | 10 => [[st3[6]]; [st3[7]]; [st3[4]]] | 11 => [[st3[8]]; [st3[9]]; [st3[4]]]
+  | 12 => [[sq[0;0]; sq[1;1]]; [sq[0;1]; sq[1;0]]] | _ => [[sq[4;4]; sq[5;5]]; [sq[4;5]; sq[5;4]]]
   end.
-Definition povm_dim (k : nat) : nat := match k with 0 | 1 | 2 => 2 | 3 => 4 | _ => 3 end.
+Definition povm_dim (k : nat) : nat := match k with 0 | 1 | 2 => 2 | 3 | 12 | 13 => 4 | _ => 3 end.
 Definition tf_sum (l : list tfrac) : tfrac :=
   match l with [] => mkF (fun _ _ => z8_0) 1 | a :: t => fold_left tf_add t a end.
 Definition povm1_tbl (k : nat) : list tfrac := map (fun out => tf_sum (map (fun s => proj_of (state_tbl s)) out)) (povm_states k).
@@ -371,6 +373,16 @@ Definition mproc_tbl (k : nat) : list (list tfrac) :=
 Definition mproc_dim (k : nat) : nat := match k with 0 | 1 | 2 | 8 | 9 | 10 => 2 | 3 | 6 | 7 => 4 | _ => 3 end.
 (* trace preservation of the sum:  sum_{x,k} K^dagger K = I ;  K^dagger K = m^dagger m / n^2 *)
 Definition kdk (d : nat) (f : tfrac) : tfrac := mkF (mmul d (zadj (tf_m f)) (tf_m f)) (tf_n f * tf_n f).
+(* the POVM a measurement process induces: outcome x |-> sum_k K_{x,k}^dagger K_{x,k}; and the single POVM name
+   whose measurement the process name stands for (x-type1 / x-type2 -> x, ..., xxparity-type1 -> xxparity) *)
+Definition mproc_induced_povm (k : nat) : list tfrac := map (fun out => tf_sum (map (kdk (mproc_dim k)) out)) (mproc_tbl k).
+Definition mproc_povm_name (k : nat) : nat :=
+  match k with 0 | 8 => 0 | 1 | 9 => 1 | 2 | 10 => 2 | 3 => 3 | 4 | 11 => 6 | 5 | 12 => 7 | 6 => 12 | _ => 13 end.
+(* equality of fractions  a.m / a.n = b.m / b.n  (positive denominators), entrywise, without division *)
+Definition tf_eq (d : nat) (a b : tfrac) : Prop :=
+  forall i j, (i < d)%nat -> (j < d)%nat -> z8mul (z8z (tf_n b)) (tf_m a i j) = z8mul (z8z (tf_n a)) (tf_m b i j).
+Definition tf_eqb (d : nat) (a b : tfrac) : bool :=
+  allbn d (fun i => allbn d (fun j => z8eqb (z8mul (z8z (tf_n b)) (tf_m a i j)) (z8mul (z8z (tf_n a)) (tf_m b i j)))).
 
 (* ================= 2-qutrit Hamiltonians ================= *)
 (* base matrix names as for [base3]; a single-base-matrix gate name  <b0><b1><angle>  has  H = (pi/4) * k * (b0 (x) b1),  k = 1 (90) or 2 (180);
